@@ -15,6 +15,7 @@ open Verif.Props.C01
 #print axioms stmts_sound_partial
 #print axioms stmts_sound_counterexample
 #print axioms print_derives
+#print axioms print_derives_parsed
 #print axioms print_target
 #print axioms assoc_land
 #print axioms assoc_lor
